@@ -32,9 +32,9 @@ What the statements do NOT cover (assumptions, see checks/c14.json):
   (`aliasing_breaks_exactness_before_fix`).
 * Failure points that are not in `Fault` (hence `…_partial` below): the tail repair failing
   after a failed *rotation*; the directory sync failing inside `manager.Create`; `encodeBatch`
-  returning an error (impossible for `starknet.Value`, a `[4]uint64`); `wal.close()` /
-  `manager.Close()` failing inside `Close`; `manager.Obsolete` returning an error (it never does
-  in Pebble's standalone manager).
+  returning an error (impossible for `starknet.Value`, a `[4]uint64`); `manager.Close()` failing
+  inside `Close` (`wal.close()` failing is modelled: `closeWriter`, `closeWriterNoRepair`);
+  `manager.Obsolete` returning an error (it never does in Pebble's standalone manager).
 -/
 namespace Juno.C14.Props
 open Juno.C14
